@@ -507,7 +507,7 @@ _FILE_RE = re.compile(r'"file": "([^"]*)"')
 _INCL_RE = re.compile(r'"includedFrom": \{[^}]*\}')
 
 
-def prune_ast_text(txt):
+def prune_ast_text(txt, side_prefix=None, big=120000):
     """Drop function definitions that live in system headers (the x86 intrinsic
     headers alone are 170 MB of JSON) from clang's pretty-printed AST dump.  The
     dump is cut at its top-level declarations (lines '    {' ... '    }'); a
@@ -539,6 +539,23 @@ def prune_ast_text(txt):
         system = decl_file.startswith(("/usr/", "/lib/", "/opt/")) or "/lib/clang/" in decl_file
         is_func = '"kind": "FunctionDecl"' in head
         if not (system and is_func):
+            if is_func and side_prefix and len(text) > big:
+                # very large bodies (unrolled round functions) go to a side file and are loaded on first call
+                mname = re.search(r'\n      "name": "([^"]+)"', text[:8000])
+                if mname:
+                    side = "%s%s.json" % (side_prefix, mname.group(1))
+                    body = text[:-1] if text.endswith("},") else text
+                    body = json.dumps(json.loads(body), separators=(",", ":"))
+                    tmp = side + ".%d.tmp" % os.getpid()
+                    with open(tmp, "w") as f:
+                        f.write(body)
+                    os.replace(tmp, side)
+                    text = json.dumps({"kind": "FunctionDecl", "name": mname.group(1), "_lazy": os.path.basename(side),
+                                       "inner": [{"kind": "CompoundStmt", "inner": []}]})
+                    text = "    " + text + ","
+                    kept.append(text)
+                    i = j + 1
+                    continue
             if chunk[-1] == "    }":
                 chunk = chunk[:-1] + ["    },"]
             kept.append("\n".join(chunk))
@@ -547,7 +564,8 @@ def prune_ast_text(txt):
         kept[-1] = kept[-1][:-1] if kept[-1].endswith("},") else kept[-1]
     out.append("\n".join(kept))
     out.extend(lines[i:])
-    return "\n".join(out)
+    # compact form: a third of the size, faster to load in every worker process
+    return json.dumps(json.loads("\n".join(out)), separators=(",", ":"))
 
 
 
@@ -563,10 +581,13 @@ class CProgram(object):
         t = self.cdb.tu(src)
         key = (t.ext, t.src)
         if key not in self._tu:
-            name = "tuastp_%s_%s.json" % (t.ext.split(".")[-1], os.path.basename(t.src))
+            name = "tuastr_%s_%s.json" % (t.ext.split(".")[-1], os.path.basename(t.src))
+            side = os.path.join(self.cdb.dir, "fn_%s_%s_" % (t.ext.split(".")[-1], os.path.basename(t.src)))
             txt = self.cdb._cached(name, lambda: prune_ast_text(self.cdb._clang(
-                ["-Xclang", "-ast-dump=json", "-fsyntax-only", "-Wno-everything"], t)))
-            self._tu[key] = TUInfo(json.loads(txt))
+                ["-Xclang", "-ast-dump=json", "-fsyntax-only", "-Wno-everything"], t), side))
+            info = TUInfo(json.loads(txt))
+            info.side_dir = self.cdb.dir
+            self._tu[key] = info
         return self._tu[key]
 
     def find_extern(self, name):
@@ -597,6 +618,7 @@ class Machine(object):
         self.line = None
         self.depth = 0
         self.strict_uninit = True
+        self.fd_stack = []
 
     # -- memory -----------------------------------------------------------------
     def alloc(self, size, name="", kind="heap", init=None):
@@ -841,6 +863,11 @@ class Machine(object):
         return self.run_decl(fd, args, tu)
 
     def run_decl(self, fd, args, tu):
+        if fd.get("_lazy"):
+            with open(os.path.join(tu.side_dir, fd["_lazy"])) as f:
+                real = json.load(f)
+            tu.funcs[fd.get("name")] = real
+            fd = real
         self.depth += 1
         if self.depth > 60:
             raise Undecided("call depth")
@@ -849,6 +876,7 @@ class Machine(object):
         if len(args) != len(params):
             raise Undecided("%s(): %d arguments for %d parameters" % (fd.get("name"), len(args), len(params)))
         fr = {}
+        self.fd_stack.append(fd)
         for pd, a in zip(params, args):
             t = resolve(tu.ctype(pd.get("type")))
             if t.k == "array":
@@ -876,6 +904,7 @@ class Machine(object):
                 if o is not None and o.kind in ("local", "param"):
                     del self.objs[p.obj]
             self.frames.pop()
+            self.fd_stack.pop()
             self.depth -= 1
             self.line = saved_line
 
@@ -995,14 +1024,15 @@ class Machine(object):
         self.rv(s, tu)
 
     def _label_name(self, decl_id, tu):
-        cache = getattr(tu, "_labels", None)
+        fd = self.fd_stack[-1] if self.fd_stack else None
+        cache = fd.get("_labels") if fd is not None else None
         if cache is None:
             cache = {}
-            for f in tu.funcs.values():
-                for x in _walk(f):
-                    if x.get("kind") == "LabelStmt":
-                        cache[x.get("declId")] = x.get("name")
-            tu._labels = cache
+            for x in _walk(fd or {}):
+                if x.get("kind") == "LabelStmt":
+                    cache[x.get("declId")] = x.get("name")
+            if fd is not None:
+                fd["_labels"] = cache
         if decl_id not in cache:
             raise Undecided("goto target not found")
         return cache[decl_id]
